@@ -23,7 +23,12 @@ QUICK_SCOPE_PREFIXES = (
     "yastn.backend.backend_np", "yastn.krylov", "yastn.sym", "yastn.operators",
     "yastn.tn.mps", "yastn.tn.fpeps._", "yastn.tn.fpeps.gates",
 )
-THOROUGH_EXTRA = ("yastn.tn.fpeps.envs",)
+# The PEPS environments (yastn.tn.fpeps.envs) are NOT in the scope of the alias engine in either tier: their measurement and
+# fixed-point code decorates tensors obtained from fresh two-layer views, forwards user option dicts and keeps iteration state on
+# the environment; with the engine's precision that produced 58 reports of which the ones read by hand were engine imprecision or
+# documented accumulators (DESIGN §9.9).  The property's quantifier names Tensor/MPS/PEPS methods; for environments it names
+# copy()/clone() only, which rule M3-env below checks structurally.
+THOROUGH_EXTRA = ()
 
 INPLACE_NAMES = {"set_block", "__setitem__", "_fill_tensor", "__init__", "__post_init__", "__new__", "__setattr__",
                  "__delitem__", "__delattr__", "__enter__", "__exit__", "__set__", "__iadd__", "__imul__",
@@ -268,6 +273,7 @@ def rule_M3(chk, eng, funcs):
     chk.rule("M3", "copy()/clone() results share no array storage with the source; shallow_copy() shares "
              "tensors but owns its containers", floor=12)
     validated = rule_M3_structural(chk, eng, funcs)
+    rule_M3_env(chk)
     for f in funcs:
         if f.name not in ("copy", "clone", "shallow_copy"):
             continue
@@ -318,6 +324,59 @@ def rule_M3(chk, eng, funcs):
                     + "; ".join(m for _, m in leaks[:4]), {"ret": sorted(str(o) for o, _ in leaks)[:6]})
         else:
             chk.ok("M3", f, f"{owner}()", {"ret": sorted(map(str, shared0))[:4]})
+
+
+def rule_M3_env(chk):
+    """copy()/clone() of PEPS environments: every field that shallow_copy() carries over (except the shared state `psi`, which
+    the docstrings name as shared) is carried by copy()/clone() through .copy()/.clone() of the source's field; the generic
+    dataclass of environment tensors maps copy/clone over all its fields."""
+    prog = chk.prog
+    n = 0
+    for mod, cname in (("yastn.tn.fpeps.envs._env_ctm", "EnvCTM"), ("yastn.tn.fpeps.envs._env_bp", "EnvBP")):
+        ci = prog.cls(mod, cname)
+        sh = ci.methods.get("shallow_copy")
+        if sh is None:
+            raise AnalysisError(f"{cname}.shallow_copy not found")
+
+        def carried(f):
+            me = f.params[0]
+            new = [n_.targets[0].id for n_ in A.walk_local(f.node) if isinstance(n_, ast.Assign) and isinstance(n_.targets[0], ast.Name)
+                   and isinstance(n_.value, ast.Call) and not isinstance(n_.value.func, ast.Attribute) or
+                   (isinstance(n_, ast.Assign) and isinstance(n_.targets[0], ast.Name) and isinstance(n_.value, ast.Call)
+                    and A.text(n_.value.func) in ("cls", cname, f"type({me})"))]
+            out = {}
+            for n_ in A.walk_local(f.node):
+                if isinstance(n_, ast.Assign) and isinstance(n_.targets[0], ast.Attribute) and A.text(n_.targets[0].value) in new:
+                    out[n_.targets[0].attr] = n_
+            return me, out
+        _, base = carried(sh)
+        if not base:
+            raise AnalysisError(f"{cname}.shallow_copy: carried fields not found")
+        for name in ("copy", "clone"):
+            f = ci.methods.get(name)
+            if f is None:
+                raise AnalysisError(f"{cname}.{name} not found")
+            me, got = carried(f)
+            for fld in sorted(base):
+                n += 1
+                st = got.get(fld)
+                ok = st is not None and isinstance(st.value, ast.Call) and A.callee_attr(st.value) == name and A.text(st.value.func.value) == f"{me}.{fld}"
+                chk.verdict("M3", (f, st if st is not None else f.node), f"{cname}.{name}(): field `{fld}` = {me}.{fld}.{name}()", True if ok else False,
+                            f"{cname}.{name}(): the field `{fld}`, which shallow_copy() carries over, is not carried by {name}() as `{me}.{fld}.{name}()`: "
+                            f"the {name} shares (or lacks) the environment tensors of its source")
+    dc = prog.cls("yastn.tn.fpeps.envs._env_dataclasses", "dataclasses_common")
+    for name in ("copy", "clone"):
+        f = dc.methods[name]
+        me = f.params[0]
+        comps = [x for x in ast.walk(f.node) if isinstance(x, ast.DictComp)]
+        ok = False
+        if len(comps) == 1:
+            c = comps[0]
+            ok = isinstance(c.value, ast.Call) and A.callee_attr(c.value) == name and A.text(c.generators[0].iter) == f"fields({me})"
+        n += 1
+        chk.verdict("M3", f, f"dataclasses_common.{name}(): every field through .{name}()", True if ok else False,
+                    f"dataclasses_common.{name}() does not map .{name}() over all fields(self)")
+    return n
 
 
 def rule_M3_structural(chk, eng, funcs):
@@ -438,3 +497,25 @@ def rule_M5(chk, eng, funcs):
                 continue
             chk.bad("M5", (f, node), ev.text,
                     f"{f.short}() stores tensor state field `{fld}` on an object that may be one of its arguments")
+
+
+MUTANTS = [
+    ("gate application pops from the receiver's swaps", "yastn/tn/fpeps/_doublePepsTensor.py",
+     "        swaps = dict(self.swaps)\n        if 'k4' in swaps:", "        swaps = self.swaps\n        if 'k4' in swaps:", "M1"),
+    ("product_peps fills the caller's dict", "yastn/tn/fpeps/_initialize.py", "    else:\n        vectors = dict(vectors)\n", "", "M1"),
+    ("unroll resolution writes the caller's dict", "yastn/tensor/oe_blocksparse.py",
+     "    unroll = dict(unroll)  # resolved values are stored in a copy; do not modify the caller's dict\n", "", "M1"),
+    ("scalar multiplication in place", "yastn/tensor/_algebra.py", "    data = a._data * number\n    if a.config.backend.get_size(data) != a.struct.size:",
+     "    data = a._data\n    data *= number\n    if a.config.backend.get_size(data) != a.struct.size:", "M1"),
+    ("Tensor.copy shares data", "yastn/tensor/_single.py", "    data = a.config.backend.copy(a._data)\n    return a._replace(data=data)", "    data = a._data\n    return a._replace(data=data)", "M3"),
+    ("MPS copy keeps tensors", "yastn/tn/mps/_mps_parent.py", "        for ind, ten in phi.A.items():\n            phi.A[ind] = ten.copy()\n        return phi", "        return phi", "M3"),
+    ("shallow copy shares the dict of tensors", "yastn/tn/mps/_mps_parent.py", "        phi.A = dict(self.A)\n", "        phi.A = self.A\n", "M3"),
+    ("backend add accumulates into its first operand", "yastn/backend/backend_np.py",
+     "    newdata = np.zeros(Dsize, dtype=dtype)\n    for data, meta in zip(datas, metas):\n        for sl_c, sl_a in meta:\n            newdata[slice(*sl_c)] += data[slice(*sl_a)]",
+     "    newdata = datas[0]\n    for data, meta in zip(datas[1:], metas[1:]):\n        for sl_c, sl_a in meta:\n            newdata[slice(*sl_c)] += data[slice(*sl_a)]", "M4"),
+]
+BENIGN = [
+    ("copy via list of pairs", "yastn/tn/fpeps/_doublePepsTensor.py", "        swaps = dict(self.swaps)\n        if 'k4' in swaps:", "        swaps = {k: v for k, v in self.swaps.items()}\n        if 'k4' in swaps:"),
+    ("multiplication operands swapped", "yastn/tensor/_algebra.py", "    data = a._data * number\n    if a.config.backend.get_size(data) != a.struct.size:", "    data = number * a._data\n    if a.config.backend.get_size(data) != a.struct.size:"),
+    ("copy with explicit temporary", "yastn/tensor/_single.py", "    data = a.config.backend.copy(a._data)\n    return a._replace(data=data)", "    backend = a.config.backend\n    data = backend.copy(a._data)\n    return a._replace(data=data)"),
+]
